@@ -33,9 +33,11 @@ def _roles(**kw):
     index_vars = kw.pop("index_vars", None)
     opaque = kw.pop("opaque_index", ())
     cfuncs = kw.pop("coord_funcs", ())
+    single = kw.pop("singleton_index", ())
     citer = kw.pop("coord_iterables", ())
     r = Roles(**kw)
     r.opaque_index |= set(opaque)
+    r.singleton_index |= set(single)
     r.coord_funcs |= set(cfuncs)
     r.coord_iterables |= set(citer)
     r.coord_src |= set(csrc)
@@ -86,6 +88,21 @@ BLOCK_PAIRS = [
      dict(extra_dual=dict(GRAPH_DUAL, polya_info="polya_info", terminating_intron="starting_intron", starting_intron="terminating_intron"),
           seq=["corrected_introns", "corrected_exons"], other=["polyt_starts", "read_starts", "polya_ends", "read_ends"]),
      "read start / end positions per terminal intron"),
+]
+
+# elif-branch pairs: (module, function, substring of left test, substring of right test, roles, description)
+EC = "src/exon_corrector.py"
+BRANCH_PAIRS = [
+    (EC, "ExonCorrector.process_events", "MatchEventSubtype.fake_terminal_exon_left", "MatchEventSubtype.fake_terminal_exon_right",
+     dict(interval=["corrected_read_region", "read_region", "isoform_region"], seq=["read_introns", "isoform_introns"],
+          seq_elem={"read_introns": "I", "isoform_introns": "I"}, other=["new_introns"],
+          singleton_index=["event.read_region", "event.isoform_region"]),
+     "skipping a fake terminal exon, left vs right"),
+    (EC, "ExonCorrector.process_events", "MatchEventSubtype.terminal_exon_misalignment_left", "MatchEventSubtype.terminal_exon_misalignment_right",
+     dict(interval=["corrected_read_region", "read_region", "isoform_region"], seq=["read_introns", "isoform_introns"],
+          seq_elem={"read_introns": "I", "isoform_introns": "I"}, other=["new_introns"],
+          singleton_index=["event.read_region", "event.isoform_region"]),
+     "moving a misaligned terminal exon onto the isoform's, left vs right"),
 ]
 
 # direction flags: (module, function, flag name, roles)
@@ -182,6 +199,22 @@ def run(prog, ctx):
         armed += 1
         if not _report(ctx, fq, br[0], qual, only_l, only_r, desc):
             ctx.ok("X1", "%s:%d" % (rel, br[0].lineno), "%s: left and right blocks are exact mirror images (%d facts)" % (qual, nr))
+    for rel, fq, ltest, rtest, rkw, desc in BRANCH_PAIRS:
+        f = prog.func(rel, fq)
+        ifs = [i for i in walk_no_nested(f) if isinstance(i, ast.If)]
+        li = [i for i in ifs if ltest in src(i.test) and rtest not in src(i.test)]
+        ri = [i for i in ifs if rtest in src(i.test) and ltest not in src(i.test)]
+        if len(li) != 1 or len(ri) != 1:
+            raise AnalysisError("X1 branch pair %s: branches testing %s / %s not found (%d, %d)" % (fq, ltest, rtest, len(li), len(ri)))
+        try:
+            only_l, only_r, nl, nr = reflect.compare_blocks(li[0].body, ri[0].body, f, _roles(**dict(rkw)))
+        except reflect.Unsupported as e:
+            unarmed.append("%s [%s]: %s" % (fq, ltest.split(".")[-1], e))
+            continue
+        armed += 1
+        if not _report(ctx, fq, ri[0], fq, only_l, only_r, desc):
+            ctx.ok("X1", "%s:%d" % (rel, ri[0].lineno), "%s: branches %s / %s are exact mirror images (%d facts)"
+                   % (fq, ltest.split(".")[-1], rtest.split(".")[-1], nr))
     # direction flags: the function specialised to flag=True, mirrored, must equal the function specialised to flag=False
     for rel, fq, flag, rkw in FLAG_FUNCS:
         f = prog.func(rel, fq)
